@@ -32,6 +32,8 @@ pub struct Profile {
     pub try_huge: bool,
     /// include the huge upper-bound size hints
     pub huge_hints: bool,
+    /// only targets / priorities that do not depend on the internal arrangement or iteration order
+    pub abstract_only: bool,
 }
 
 const BOTH: &[Kind] = &[Kind::PQ, Kind::DPQ];
@@ -108,6 +110,7 @@ pub fn profile(prop: u8, thorough: bool) -> Profile {
         reserve_overflow: false,
         try_huge: true,
         huge_hints: true,
+        abstract_only: false,
     };
     if thorough {
         p.size_w = [1, 1, 1, 1, 4, 4, 2, 1];
@@ -195,6 +198,7 @@ pub fn profile(prop: u8, thorough: bool) -> Profile {
         }
         18 => {
             p.hashers = &[HasherKind::Fixed];
+            p.abstract_only = true;
             p.size_w = [1, 1, 1, 1, 4, 3, 1, 0];
             p.max_big = 150;
             p.ops = with(p.ops, &[("serde", 1), ("get", 3)]);
@@ -232,6 +236,18 @@ pub fn prio_val(dom: u8) -> BoxedStrategy<i64> {
 }
 
 pub fn prio_spec(dom: u8) -> BoxedStrategy<PrioSpec> {
+    if ABSTRACT.with(|a| a.get()) {
+        return prop_oneof![
+            12 => prio_val(dom).prop_map(PrioSpec::Val),
+            2 => (0u8..3).prop_map(PrioSpec::AboveMax),
+            2 => (0u8..3).prop_map(PrioSpec::BelowMin),
+            1 => Just(PrioSpec::EqMax),
+            1 => Just(PrioSpec::EqMin),
+            1 => Just(PrioSpec::Unchanged),
+            1 => (-2i8..3).prop_map(PrioSpec::Delta),
+        ]
+        .boxed();
+    }
     prop_oneof![
         12 => prio_val(dom).prop_map(PrioSpec::Val),
         2 => (0u8..3).prop_map(PrioSpec::AboveMax),
@@ -248,6 +264,9 @@ pub fn prio_spec(dom: u8) -> BoxedStrategy<PrioSpec> {
 }
 
 pub fn target(u: u32) -> BoxedStrategy<Target> {
+    if ABSTRACT.with(|a| a.get()) {
+        return prop_oneof![10 => (0..u).prop_map(Target::Id), 1 => Just(Target::Max), 1 => Just(Target::Min)].boxed();
+    }
     prop_oneof![
         10 => (0..u).prop_map(Target::Id),
         3 => any::<u16>().prop_map(Target::Pos),
@@ -513,15 +532,22 @@ pub fn ctor_strategy(p: &Profile, u: u32, dom: u8) -> BoxedStrategy<Ctor> {
         .boxed()
 }
 
+thread_local! {
+    /// set while building strategies for a profile with `abstract_only`
+    static ABSTRACT: std::cell::Cell<bool> = const { std::cell::Cell::new(false) };
+}
+
 pub fn case_strategy(p: &Profile) -> BoxedStrategy<Case> {
     let p = p.clone();
+    let abstract_only = p.abstract_only;
     let kinds = proptest::sample::select(p.kinds.to_vec());
     let hashers = proptest::sample::select(p.hashers.to_vec());
     let uni = pick(&[4u32, 12, 64, 1024], &p.universe_w);
     let dom = pick(&[0u8, 1, 2, 3], &p.dom_w);
     (kinds, hashers, uni, dom)
         .prop_flat_map(move |(kind, hasher, u, dom)| {
-            (
+            ABSTRACT.with(|a| a.set(abstract_only));
+            let r = (
                 Just(kind),
                 Just(hasher),
                 Just(u),
@@ -529,7 +555,9 @@ pub fn case_strategy(p: &Profile) -> BoxedStrategy<Case> {
                 vec(op_strategy(&p, kind, u, dom), 0..p.max_ops),
                 1u8..9,
                 any::<u64>(),
-            )
+            );
+            ABSTRACT.with(|a| a.set(false));
+            r
         })
         .prop_map(|(kind, hasher, universe, ctor, ops, drain_every, drain_bits)| Case {
             kind,
